@@ -6,4 +6,5 @@ let entries : (string * (byte list -> byte list)) list = [
   "json_model", json_model_line;
   "render_model", render_model_line;
   "shape_model", shape_model_line;
+  "recursion_model", recursion_model_line;
 ]
